@@ -685,7 +685,7 @@ func rulesC02(c *Ctx) {
 }
 
 func rulesC01(c *Ctx) {
-	slotAgreement(c, "C01", map[string]bool{"keyword": true})
+	slotAgreement(c, "C01", map[string]bool{"keyword": true, "order": true})
 	n := probeBalance(c, "C01.probe")
 	c.Floor("C01.probe", n, 120)
 	dispatchC01(c)
@@ -698,6 +698,7 @@ func rulesC01(c *Ctx) {
 	// statement laid out with CR or CRLF must parse
 	crfoldRule(c, "C01.crfold")
 	intWidthC01(c)
+	durationScanC01(c)
 	parseFreshRule(c, "C01.parsefresh")
 	// duration literals: a legal spelling (decimal digits, any unit of the table,
 	// a total that fits) must not be rejected or misread
@@ -725,9 +726,39 @@ func fieldIsEmptyInterface(T *types.Named, field string) bool {
 // or another clause of a type switch that has a float64 clause).
 func floatExcluded(p *Program, str *types.Func, pos token.Pos, field string) bool {
 	fd := p.FuncDecls[str]
+	// the emission may sit in a helper method String calls
+	for _, cand := range p.FuncDecls {
+		if cand != nil && cand.Body != nil && cand.Body.Pos() <= pos && pos < cand.Body.End() {
+			fd = cand
+		}
+	}
 	if fd == nil || fd.Body == nil {
 		return false
 	}
+	// ok variables of `v, ok := x.F.(float64)`
+	okVars := map[types.Object]bool{}
+	ast.Inspect(fd.Body, func(n ast.Node) bool {
+		as, ok := n.(*ast.AssignStmt)
+		if !ok || len(as.Lhs) != 2 || len(as.Rhs) != 1 {
+			return true
+		}
+		ta, ok := ast.Unparen(as.Rhs[0]).(*ast.TypeAssertExpr)
+		if !ok || ta.Type == nil {
+			return true
+		}
+		if sel, ok := ast.Unparen(ta.X).(*ast.SelectorExpr); !ok || sel.Sel.Name != field {
+			return true
+		}
+		if b, ok := p.Info.TypeOf(ta.Type).(*types.Basic); !ok || b.Kind() != types.Float64 {
+			return true
+		}
+		if id, ok := as.Lhs[1].(*ast.Ident); ok {
+			if o := p.Info.ObjectOf(id); o != nil {
+				okVars[o] = true
+			}
+		}
+		return true
+	})
 	isField := func(e ast.Expr) bool {
 		sel, ok := ast.Unparen(e).(*ast.SelectorExpr)
 		return ok && sel.Sel.Name == field
@@ -741,6 +772,16 @@ func floatExcluded(p *Program, str *types.Func, pos token.Pos, field string) boo
 	ast.Inspect(fd.Body, func(n ast.Node) bool {
 		switch x := n.(type) {
 		case *ast.IfStmt:
+			// if !ok { here }   /   if ok { ... } else { here }
+			cond := ast.Unparen(x.Cond)
+			if u, ok := cond.(*ast.UnaryExpr); ok && u.Op == token.NOT {
+				if id, ok := ast.Unparen(u.X).(*ast.Ident); ok && okVars[p.Info.ObjectOf(id)] && x.Body.Pos() <= pos && pos < x.Body.End() {
+					found = true
+				}
+			}
+			if id, ok := cond.(*ast.Ident); ok && okVars[p.Info.ObjectOf(id)] && x.Else != nil && x.Else.Pos() <= pos && pos < x.Else.End() {
+				found = true
+			}
 			if as, ok := x.Init.(*ast.AssignStmt); ok && len(as.Rhs) == 1 && x.Else != nil {
 				if ta, ok := ast.Unparen(as.Rhs[0]).(*ast.TypeAssertExpr); ok && ta.Type != nil && isField(ta.X) && isFloat(ta.Type) {
 					if x.Else.Pos() <= pos && pos < x.Else.End() {
